@@ -242,6 +242,77 @@ def run_notation(case, agg):
                 return
 
 
+# -- (a3) several digest fields naming ONE artifact ------------------------------------------------------------
+def shared_cases(tier):
+    out = []
+    for nota in ("file", "file_direct", "raw", "envelope-file"):
+        for alg in gen.ALG5:
+            for mask in ((0b11111, 0b00011, 0b10100, 0) if tier == "quick" else range(32)):
+                for with_image in (False, True):
+                    out.append({"notation": nota, "alg": alg, "mask": mask, "image": with_image})
+    return out
+
+
+def run_shared(case, agg):
+    """the wrapper digest, the digests of the severed members selected by the mask and (optionally) an image digest
+    inside the manifest are ALL written as the same reference to the same artifact under the same algorithm - two
+    creations in a row: each digest of the output is the hash of what the output carries, and the image digest (not a
+    digest of envelope content) stays what the notation denotes"""
+    nota, alg, mask = case["notation"], case["alg"], case["mask"]
+    n = registry.HASH_LEN[registry.HASH_ALGS[alg]]
+    algc = registry.HASH_ALGS[alg]
+    with fresh_dir("c01s") as root:
+        art = os.path.join(root, "artifact.bin")
+        blob = bytes.fromhex("c3" * n) if nota == "file_direct" else b"artifact bytes " * 9
+        open(art, "wb").write(blob)
+        other = impl.tool_create(gen.minimal(man={"suit-manifest-sequence-number": 77}))
+        other_file = os.path.join(root, "other.suit")
+        open(other_file, "wb").write(other)
+
+        def val():
+            return {"raw": {"raw": "c3" * n}, "file": {"file": art}, "file_direct": {"file_direct": art}, "envelope-file": {"envelope": other_file}}[nota]
+        want_image = {"raw": bytes.fromhex("c3" * n), "file": registry.digest(algc, blob), "file_direct": blob,
+                      "envelope-file": registry.digest(algc, impl.envelope_members(other)[1][3])}[nota]
+        man, env = {}, {}
+        for j, m in enumerate(SEV_NAMES):
+            if mask >> j & 1:
+                d = gen.digest(alg)
+                d["suit-digest-bytes"] = val()
+                man[m] = d
+                env[m] = body_of(m)
+        if case["image"]:
+            d = gen.digest(alg)
+            d["suit-digest-bytes"] = val()
+            man["suit-validate"] = [{"suit-directive-override-parameters": {"suit-parameter-image-digest": d}}]
+        desc = gen.minimal(man=man, env=env, alg=alg)
+        desc["SUIT_Envelope_Tagged"]["suit-authentication-wrapper"]["SuitDigest"]["suit-digest-bytes"] = val()
+        must_not = ["c3" * n] if (nota in ("raw", "file_direct") and not case["image"]) else []
+        for rnd, via in enumerate(("lib", "main-yaml", "lib")):
+            label = f"wrapper + members {mask:05b}{' + image digest' if case['image'] else ''} all given as {nota} of one artifact, alg {alg}, creation {rnd + 1} via {via}"
+            try:
+                data = impl.tool_create(copy.deepcopy(desc)) if via == "lib" else impl.tool_create_main(copy.deepcopy(desc), root, via[5:])
+            except Exception as e:
+                agg.viol(f"C01:shared-artifact/create-failed/{type(e).__name__}@{impl.site_of(e)}", f"{label}: {type(e).__name__}: {e}", artefacts={"desc": desc})
+                return
+            if case["image"]:
+                try:
+                    menv, raw = impl.envelope_members(data)
+                    mm = refcbor.decode(menv.get(3).value)
+                    seq = refcbor.decode(mm.get(7).value) if mm.get(7).kind == "bstr" else mm.get(7)
+                    dg = refcbor.decode(seq.items[1].get(3).value)
+                    got = dg.items[1].value
+                except Exception as e:
+                    agg.viol("C01:shared-artifact/output-structure", f"{label}: cannot locate the image digest: {type(e).__name__}: {e}", artefacts={"desc": desc})
+                    return
+                if got != want_image:
+                    agg.viol("C01:shared-artifact/image-digest", f"{label}: the image digest in the manifest is {got.hex()[:32]}.., the reference denotes {want_image.hex()[:32]}..",
+                             artefacts={"desc": desc, "output": data.hex()[:3000]})
+                    return
+            if not report(agg, h8("c01s", case, rnd), label, data, must_not, via, desc=desc,
+                          sample=case if (mask == 0b10100 and alg == gen.ALG5[1] and rnd == 1 and case["image"]) else None):
+                return
+
+
 # -- (b) width boundaries ----------------------------------------------------------------------------
 
 def width_cases(tier):
@@ -360,6 +431,8 @@ def plan(tier):
         CaseStage("digest-notations", lambda: notation_cases(tier), run_notation, chunk=2,
                   rule="stale digest written as raw / file / file_direct / envelope(file) / envelope(dict) at the wrapper, a "
                        "dependency's wrapper and each severed member x 5 algorithms x library / main(JSON) / main(YAML)"),
+        CaseStage("one-artifact-many-digest-fields", lambda: shared_cases(tier), run_shared, chunk=2,
+                  rule="4 notations x 5 algorithms x member subsets (quick 4, thorough all 32) x {with, without} an image digest in the manifest, every field naming one artifact; 3 creations in a row"),
         CaseStage("width-boundaries", lambda: width_cases(tier), run_width, chunk=1,
                   rule="manifest / severed member byte length at 23,24,255,256,65535,65536 x 5 algorithms"),
     ]
